@@ -184,4 +184,8 @@ def run_spec(spec, rep, tier, seed, coq=None):
         "repo_tree_hash": pv.repo_hash(),
     })
     rep.assumptions = list(spec.assumptions)
+    # a second correspondence of the same property (another harness / model area), if the property has one
+    extra = getattr(spec, "extra", None)
+    if extra:
+        rep.coverage["second_correspondence"] = extra(rep, tier, seed)
     return rep.finish(coq)
